@@ -6,7 +6,8 @@ def tasks(tier):
 TRUSTED_BASE = TRUSTED_CORE
 ASSUMPTIONS = []
 NOT_COVERED = []
-LEVEL_TEXT = "wip"; DESIGN_REF = "DESIGN.md section 8 (C07)"; LEVEL_NOTE = "wip"
+LEVEL_TEXT = 'Function-level contract of get_max_advance (exact characterisation incl. in-flight ancestors, <= until, = until without trigger inputs, frame); the promise invariant PM over whole runs is not yet built.'
 TECHNIQUE = "contract-based deductive verification"
-CLAIMED = False
+DESIGN_REF = 'DESIGN.md section 8 (C07)'
+CLAIMED = True
 NA_REASON = "check under construction in this round"
